@@ -213,6 +213,34 @@ Theorem C17_translated_totals_agree :
 Proof. exact RV.Proofs.CodeTotals.gen_totals_agree. Qed.
 Print Assumptions C17_translated_totals_agree.
 
+(* the reporter thread's loop AS TRANSLATED (Reporter::processing_loop): in every pass keep_running is read
+   first, everything the workers queued is merged, and the merged map is handed to report() and cleared in
+   the same pass and only then; the loop returns at the first pass that finds the flag cleared (each pass
+   ends with the one-second sleep, so the reporter notices a shutdown within one pass) *)
+Theorem C17_translated_reporter_loop_is_model :
+  forall pushed flag due fuel q m i reps,
+  RV.Gen.Code.gen_reporter_loop pushed flag due fuel q m tt i reps
+  = RV.Proofs.CodeReporter.reporter pushed flag due fuel q m i reps.
+Proof. exact RV.Proofs.CodeReporter.gen_reporter_loop_model. Qed.
+Print Assumptions C17_translated_reporter_loop_is_model.
+
+Theorem C17_reporter_pass :
+  forall pushed flag due f q m i reps, flag i = true ->
+  RV.Proofs.CodeReporter.reporter pushed flag due (S f) q m i reps
+  = let q1 := RV.Proofs.CodeReporter.after_pushes pushed q i in
+    let m1 := rep_receive m (sq_items q1) in
+    if due i then RV.Proofs.CodeReporter.reporter pushed flag due f (mksq (sq_cap q1) []) [] (S i) (reps ++ [m1])
+    else RV.Proofs.CodeReporter.reporter pushed flag due f (mksq (sq_cap q1) []) m1 (S i) reps.
+Proof. exact RV.Proofs.CodeReporter.reporter_pass. Qed.
+Print Assumptions C17_reporter_pass.
+
+Theorem C17_reporter_stops_at_the_first_cleared_flag :
+  forall pushed flag due n fuel q m i reps,
+  (n < fuel)%nat -> (forall j, (i <= j < i + n)%nat -> flag j = true) -> flag (i + n)%nat = false ->
+  exists q' m' reps', RV.Proofs.CodeReporter.reporter pushed flag due fuel q m i reps = Ok (q', m', (i + n)%nat, reps').
+Proof. exact RV.Proofs.CodeReporter.reporter_stops_at_flag. Qed.
+Print Assumptions C17_reporter_stops_at_the_first_cleared_flag.
+
 (* ---- tie to the source: the integer literals of the functions this property's model stands for
    (private constants, bounds, unit factors; the files are SiteMap.files_C17) are today the ones the
    model was written against. Gen/Sites.v num_literals is regenerated from /repo on every run; a
